@@ -43,7 +43,7 @@ pub fn parallel<T: Send + 'static, R: Send + 'static>(jobs: Vec<T>, nthreads: us
 }
 
 pub fn nworkers() -> usize {
-    std::env::var("BSSIM_WORKERS").ok().and_then(|s| s.parse().ok()).unwrap_or(8)
+    std::env::var("BSSIM_WORKERS").ok().and_then(|s| s.parse().ok()).unwrap_or(10)
 }
 
 /// Run one worker process (fresh namespace) with a wall-clock backstop.
